@@ -18,9 +18,17 @@ Definition sum (l : list Z) : Z := fold_left Z.add l 0.
 
 (* the same loop in a w-bit signed element type: every += wraps *)
 Definition wrap (w : Z) (z : Z) : Z := (z + 2 ^ (w - 1)) mod 2 ^ w - 2 ^ (w - 1).
+(* the same function with a shortcut for a value that is already in range (no
+   division): used in the loops that wrap at every iteration; equal to [wrap]
+   (C13_Props.C13_wrapf_eq) *)
+Definition wrapf (w : Z) (z : Z) : Z :=
+  let h := 2 ^ (w - 1) in if (- h <=? z) && (z <? h) then z else wrap w z.
 Definition sum_w (w : Z) (l : list Z) : Z := fold_left (fun acc v => wrap w (acc + v)) l 0.
 
 Definition sum_by (f : Z -> Z) (l : list Z) : Z := fold_left (fun acc v => acc + f v) l 0.
+(* in a w-bit type ([f] already returns a value of the type) *)
+Definition sum_by_w (w : Z) (f : Z -> Z) (l : list Z) : Z :=
+  fold_left (fun acc v => wrap w (acc + f v)) l 0.
 
 (* result / T(len(slice)); Go integer division truncates toward zero (Z.quot);
    division by zero panics *)
@@ -29,6 +37,15 @@ Definition mean (l : list Z) : res Z :=
   | [] => Panic
   | _ => Ok (Z.quot (sum l) (Z.of_nat (length l)))
   end.
+
+(* Mean in a w-bit signed element type: the accumulation wraps as in [sum_w],
+   and so does the conversion T(len(slice)) of the divisor: a slice whose length
+   is a multiple of 2^w divides by zero (run-time panic), a length in
+   [2^(w-1), 2^w) becomes a NEGATIVE divisor.  Go defines MinInt / -1 = MinInt
+   (no panic): the outer [wrap]. *)
+Definition mean_w (w : Z) (l : list Z) : res Z :=
+  let d := wrap w (Z.of_nat (length l)) in
+  if d =? 0 then Panic else Ok (wrap w (Z.quot (sum_w w l) d)).
 
 (* for k, v := range s { if v == val { return k } } return -1 *)
 Fixpoint index_from (p : Z -> bool) (l : list Z) (k : Z) : Z :=
@@ -49,7 +66,7 @@ Fixpoint last_from (p : Z -> bool) (rl : list Z) (i : Z) : Z :=
   | v :: rl' => if p v then i else last_from p rl' (i - 1)
   end.
 Definition find_last_index (p : Z -> bool) (l : list Z) : Z :=
-  last_from p (rev l) (Z.of_nat (length l) - 1).
+  last_from p (rev_append l []) (Z.of_nat (length l) - 1).   (* rev_append l [] = rev l, in linear time *)
 Definition last_index_of (l : list Z) (x : Z) : Z := find_last_index (Z.eqb x) l.
 
 (* FindAll: map[int]T of the matching positions; as an index-sorted
@@ -131,6 +148,24 @@ Definition nth_go (l : list Z) (n : Z) : res Z :=
 Definition abs_go (x : Z) : Z := if x <? 0 then - x else x.
 (* the same in a w-bit signed type: -x wraps, so abs(min) = min *)
 Definition abs_w (w x : Z) : Z := if x <? 0 then wrap w (- x) else x.
+
+(* Nth with Go's w-bit [int] (w = 64): the arithmetic the code does on its index
+   argument wraps — Abs(nth) (= nth for the most negative value) and
+   bounds.Max - Abs(nth).  len(slice) - 1 cannot overflow.  The index
+   expressions are guarded so that no huge [Z.to_nat] is ever evaluated: an index
+   outside [0, len) is the Go index panic. *)
+Definition enclose_w (w lo hi nth : Z) : bool := (abs_w w nth >=? lo) && (abs_w w nth <=? hi).
+Definition nth_w (w : Z) (l : list Z) (n : Z) : res Z :=
+  let len := Z.of_nat (length l) in
+  let a := abs_w w n in
+  if ((n >=? 0) && (n >? len - 1)) || ((n <? 0) && (wrap w (len - a) <? 0)) then Err 1
+  else
+    let idx := if enclose_w w 0 len n && (n >=? 0) then n else wrap w (len - a) in
+    if (idx <? 0) || (idx >=? len) then Panic
+    else match nth_error l (Z.to_nat idx) with
+         | Some v => Ok v
+         | None => Panic
+         end.
 Definition clamp (num lo hi : Z) : Z :=
   if num <=? lo then lo else if num >=? hi then hi else num.
 Definition in_range (num lo hi : Z) : bool := (num >=? lo) && (num <=? hi).
@@ -173,6 +208,80 @@ Definition range_go (args : list Z) : res (list Z) :=
       else if (st <? 0) && (e >? s) then Err 4
       else go s st e
   | _ => Err 1
+  end.
+
+(* The same in a bounded element type, AFTER the repair 07bbafa (fix: Range stops
+   when the next term does not fit into the element type).  [wr] is the type's
+   wrap-around (signed w bits: [wrapf w]; unsigned: [mod 2^w]), [absf] its Abs.
+
+     for i := start; i < end; i += step {            for i := start; end < i; i -= Abs(step) {
+         append i                                         append i
+         if i+step < i { break }                          if i-Abs(step) > i { break }
+     }                                                }
+
+   (In the unbounded reading [range_go] the two break tests are never true —
+   step >= 1 whenever a body runs — so they do not appear there.)  The fuel is
+   the constant [cap], never a function of the arguments: nothing huge is ever
+   enumerated; a loop that uses it up answers [None] (↦ Panic). *)
+Fixpoint range_up_g (wr : Z -> Z) (fuel : nat) (i step e : Z) : option (list Z) :=
+  match fuel with
+  | O => if i <? e then None else Some []
+  | S f => if i <? e
+           then (if wr (i + step) <? i then Some [i]
+                 else option_map (cons i) (range_up_g wr f (wr (i + step)) step e))
+           else Some []
+  end.
+Fixpoint range_down_g (wr : Z -> Z) (fuel : nat) (i astep e : Z) : option (list Z) :=
+  match fuel with
+  | O => if e <? i then None else Some []
+  | S f => if e <? i
+           then (if wr (i - astep) >? i then Some [i]
+                 else option_map (cons i) (range_down_g wr f (wr (i - astep)) astep e))
+           else Some []
+  end.
+
+Definition range_g (wr absf : Z -> Z) (cap : nat) (args : list Z) : res (list Z) :=
+  let go (start step e : Z) : res (list Z) :=
+      match (if e >? 0 then range_up_g wr cap start step e
+             else range_down_g wr cap start (absf step) e) with
+      | Some l => Ok l
+      | None => Panic
+      end in
+  match args with
+  | [] => go 0 0 0
+  | [e] => go 0 1 e
+  | [s; e] => go s 1 e
+  | [s; st; e] =>
+      if (s >? e) && (e >? 0) then Err 2
+      else if st =? 0 then Err 3
+      else if (st <? 0) && (e >? s) then Err 4
+      else go s st e
+  | _ => Err 1
+  end.
+
+(* signed w-bit ints (Go int: w = 64; int8: w = 8) and unsigned w-bit ints *)
+Definition range_w (w : Z) (cap : nat) (args : list Z) : res (list Z) :=
+  range_g (wrapf w) (abs_w w) cap args.
+Definition range_u (w : Z) (cap : nat) (args : list Z) : res (list Z) :=
+  range_g (fun z => z mod 2 ^ w) (fun x => if x <? 0 then (- x) mod 2 ^ w else x) cap args.
+
+(* Reverse(ran): [rev_append l []] is [rev l] (List.rev_alt), in linear time *)
+Definition rev_res (r : res (list Z)) : res (list Z) :=
+  match r with
+  | Ok l => Ok (rev_append l [])
+  | Err k => Err k
+  | Panic => Panic
+  end.
+Definition range_right_w (w : Z) (cap : nat) (args : list Z) : res (list Z) := rev_res (range_w w cap args).
+Definition range_right_u (w : Z) (cap : nat) (args : list Z) : res (list Z) := rev_res (range_u w cap args).
+
+(* THE CODE AS FOUND (before 07bbafa): the same loops without the break tests —
+   a counter that wraps does not stop where the progression stops.  Kept only
+   for the witness C13_Props.C13_range_overflow_unrepaired_refuted. *)
+Fixpoint range_up_asfound (w : Z) (fuel : nat) (i step e : Z) : option (list Z) :=
+  match fuel with
+  | O => if i <? e then None else Some []
+  | S f => if i <? e then option_map (cons i) (range_up_asfound w f (wrapf w (i + step)) step e) else Some []
   end.
 
 Definition range_right (args : list Z) : res (list Z) :=
